@@ -1,6 +1,6 @@
 (* C14  Varint coding is canonical, lossless and bounded.
    Statements only; proofs in Proof/VarintLemmas.v; model Model/Varint.v. *)
-From Ufw Require Import Base.Bits Base.Errno Model.ByteBuffer Model.Endpoints Model.Varint Proof.VarintLemmas.
+From Ufw Require Import Base.Bits Base.Errno Model.ByteBuffer Model.Endpoints Model.Varint Proof.VarintLemmas Proof.VarintSource.
 Local Open Scope N_scope.
 
 (* length of the encoding = the length query, at most 10 (5 below 2^32) *)
@@ -74,6 +74,18 @@ Theorem C14_error_consumes_nothing : forall k b,
   match fst (vi_decode k b) with VOk _ _ => True | _ => snd (vi_decode k b) = b end.
 Proof. exact decode_error_consumes_nothing. Qed.
 Print Assumptions C14_error_consumes_nothing.
+
+(* reading from ANY source (octet- or chunk-style driver; EINTR / EAGAIN / hard errors end the call with that error): a reported
+   success consumed exactly the encoding and delivered the encoded value, and what it consumed is a prefix of at most 5 / 10 octets *)
+Theorem C14_from_source_any : forall k s n r u c s',
+  n < 2 ^ (match k with KU32 | KS32 => 32 | _ => 64 end) -> s_stream s = vi_encode n ++ r ->
+  vi_from_source k s = (SOk u c, s') -> u = n /\ c = vi_length n /\ s_stream s' = r.
+Proof. exact from_source_any_roundtrip. Qed.
+Print Assumptions C14_from_source_any.
+Theorem C14_from_source_consumes : forall k s u c s', vi_from_source k s = (SOk u c, s') ->
+  exists consumed, s_stream s = consumed ++ s_stream s' /\ N.of_nat (length consumed) = c /\ 1 <= c <= vk_max k.
+Proof. exact from_source_any_consumed. Qed.
+Print Assumptions C14_from_source_consumes.
 
 Example C14_example : vi_encode 300 = [172; 2] /\ vi_length 300 = 2 /\
   fst (vi_decode KU32 {| bb_mem := [172; 2; 9]; bb_size := 3; bb_used := 3; bb_offset := 0 |}) = VOk 300 2 /\
